@@ -74,7 +74,7 @@ def run_generic(E, case, prop, fam, forking=True):
         else:
             r["verdict"] = "error"
             r["detail"] = "vacuous harness: preconditions unsatisfiable"
-    if dec.verdict == "sat":
+    if dec.verdict == "sat" and not any(k_ == "bounds" for k_, w_ in dec.failed_obligations):
         r["candidates"].append({"signature": f"{prop}:" + fam.signature(case, dec.which), "case": case,
                                 "inputs": jsonable(dec.model), "kind": "property", "labels": dec.which[:6]})
     if dec.failed_obligations:
